@@ -7,6 +7,7 @@ from typing import TYPE_CHECKING
 
 from ruamel.yaml import YAML
 from ruamel.yaml.compat import StringIO
+from ruamel.yaml.scalarfloat import ScalarFloat
 
 if TYPE_CHECKING:
     from collections.abc import Mapping
@@ -40,6 +41,7 @@ def write_dict(
     """
     yaml = YAML()
     yaml.representer.add_representer(type(None), _yaml_none_representer)
+    yaml.representer.add_representer(ScalarFloat, _yaml_scalar_float_representer)
     yaml.indent(mapping=2, sequence=2, offset=offset)
 
     if file_name is not None:
@@ -74,6 +76,28 @@ def load_dict(source: str | Path, is_file: bool) -> dict[str, Any]:
     else:
         spec = yaml.load(source)
     return spec
+
+
+def _yaml_scalar_float_representer(representer: BaseRepresenter, data: ScalarFloat) -> ScalarNode:
+    """Yaml repr for floats which were loaded from ``yaml`` (``ScalarFloat``).
+
+    The round trip representation of ``ruamel.yaml`` re-formats the mantissa with the number
+    of digits of the original text and can change the last digit, writing the plain float
+    keeps the value.
+
+    Parameters
+    ----------
+    representer : BaseRepresenter
+        Representer of the :class:`YAML` instance.
+    data : ScalarFloat
+        Float value loaded from yaml.
+
+    Returns
+    -------
+    ScalarNode
+        Node representing the value.
+    """
+    return representer.represent_float(float(data))
 
 
 def _yaml_none_representer(representer: BaseRepresenter, data: Mapping[str, Any]) -> ScalarNode:
